@@ -38,7 +38,7 @@ def source_hash() -> str:
 
 
 def _ensure_numba_cache() -> str:
-    base = os.path.join(VERIF_ROOT, ".cache", "numba")
+    base = os.environ.get("VK_NUMBA_CACHE_BASE") or os.path.join(VERIF_ROOT, ".cache", "numba")
     os.makedirs(base, exist_ok=True)
     key = source_hash()
     mine = os.path.join(base, key)
